@@ -44,11 +44,14 @@ func (c *RecCache) Write(data []byte) error {
 		// a cache write inside a handle read would be I/O on the read path
 		c.w.S.Fail(c.w.Prop+".read-blocks", "a handle read wrote the cache")
 	}
+	// a park point: when (and only when) the store writes without holding its
+	// lock, another install's write can overtake this one
+	c.w.S.Park("cache", "write", nil, nil, nil)
 	c.mu.Lock()
 	idx := len(c.Writes)
 	fail := c.FailWrites[idx]
 	c.Writes = append(c.Writes, CacheWrite{Stamp: c.w.Stamp(), Data: append([]byte{}, data...), Err: fail,
-		Clock: c.w.NowFn().Unix(), InPoll: c.w.InFlight() > 0, Task: c.w.S.CurTask().Name})
+		Clock: c.w.NowFn().Unix(), InPoll: c.w.InFlight() > 0 || isRoundTask(c.w.S.CurTask().Name), Task: c.w.S.CurTask().Name})
 	c.mu.Unlock()
 	if fail {
 		c.w.S.Fault("cache-write-error")
@@ -68,6 +71,16 @@ func (c *RecCache) Read() ([]byte, error) {
 		return nil, errors.New("sim: cache read failed")
 	}
 	return c.Inner.Read()
+}
+
+// isRoundTask: a poll round runs in a goroutine spawned by Refresh, i.e. a
+// child of an explicit refresh task ("refreshNN/k", "final-refreshNN/k") or
+// of the poller ("ctorNN/0/k"). The round may outlive its initiating call.
+func isRoundTask(name string) bool {
+	if strings.HasPrefix(name, "refresh") || strings.HasPrefix(name, "final-refresh") {
+		return strings.Contains(name, "/")
+	}
+	return strings.Count(name, "/") >= 2
 }
 
 // LastGood returns the last successfully written document (nil if none).
